@@ -33,6 +33,9 @@ pub enum WOp {
     ReadAll,
     Flush,
     Reopen,
+    /// flush, then a major compaction of every partition on the calling thread: segment
+    /// files are rewritten, the level manifest replaced, the old segments deleted
+    Compact,
 }
 
 #[derive(Serialize, Deserialize, Clone, Debug)]
@@ -114,8 +117,10 @@ pub fn generate(seed: u64, prop: &str, thorough: bool) -> Plan {
             8 => WOp::ReadAll,
             9 => {
                 flushes += 1;
-                if flushes > 1 {
+                if flushes > 2 {
                     WOp::GcStep
+                } else if flushes == 2 {
+                    WOp::Compact
                 } else {
                     WOp::Flush
                 }
@@ -130,6 +135,13 @@ pub fn generate(seed: u64, prop: &str, thorough: bool) -> Plan {
             }
         };
         ops.push(op);
+    }
+    // a crash during compaction: some workloads compact after their flush
+    if let Some(fp) = ops.iter().position(|o| matches!(o, WOp::Flush)) {
+        if !ops.iter().any(|o| matches!(o, WOp::Compact)) && rng.chance(35) {
+            let at = rng.range(fp + 1, ops.len());
+            ops.insert(at.min(ops.len()), WOp::Compact);
+        }
     }
     Plan {
         prop: prop.to_string(),
@@ -484,6 +496,13 @@ fn run(plan: &Plan, w: &mut World, patch: &mut Option<serde_json::Value>) -> R<O
                 store.verif_flush().map_err(|e| Stop::Harness(format!("flush: {}", e)))?;
                 settle_background();
                 w.probe("flush");
+            }
+            WOp::Compact => {
+                store.verif_flush().map_err(|e| Stop::Harness(format!("flush: {}", e)))?;
+                settle_background();
+                store.verif_compact().map_err(|e| Stop::Harness(format!("compact: {}", e)))?;
+                settle_background();
+                w.probe("compact");
             }
             WOp::Reopen => {
                 // clean close inside the recording, then recovery on the same directory
